@@ -637,7 +637,7 @@ def check_c07(rep, tier, seed, wd, replay):
             for desc, nb in flip_variants(r, data, pay_lo, pay_hi, tier):
                 if len(cases) < budget:
                     cases.append({"id": "%s_k%d_%s" % (f["id"], k, desc), "file": nb, "lopts": lo, "base": f, "chunk": k, "kind": "chunk",
-                                  "single_byte": desc.startswith("flip"), "comp": ch["compression"], "crc": ch["crc"]})
+                                  "single_byte": desc.startswith("flip"), "comp": ch["compression"], "crc": ch["crc"], "n_inner": ch["n_inner"]})
         for k, a in enumerate(d["attachments"]):
             # attachment content: fields and data (not the record length prefix, not the crc itself)
             lo_a, hi_a = a["offset"] + 9, a["offset"] + a["length"] - 4
@@ -669,6 +669,12 @@ def check_c07(rep, tier, seed, wd, replay):
                              min(len(g["events"]), len(orig["events"])))
                     if n < len(g["events"]) and g["events"][n] != "invalidchunk":
                         probs.append("damaged chunk yielded a record that differs from the original without an error first (event %d: %s)" % (n, g["events"][n][:80]))
+                    elif n < len(g["events"]) and g["events"][n + 1:] != orig["events"][n + c["n_inner"]:]:
+                        # invalid-chunk token mode: the caller may read on; what follows must be the rest of the file AFTER the damaged
+                        # chunk, never the unvalidated content of that chunk
+                        tail = g["events"][n + 1:]
+                        probs.append("after the invalid-chunk token the lexer returned %d records where the original has %d after that chunk (first: %s): content of a chunk that failed its CRC was handed out"
+                                     % (len(tail), len(orig["events"][n + c["n_inner"]:]), (tail[0] if tail else "-")[:80]))
                     else:
                         stats["detected"] += 1
                         if c["comp"] == b"" and c["single_byte"]:
@@ -749,10 +755,93 @@ def check_c15(rep, tier, seed, wd, replay):
             rep.add_violation("oracle", "case %s: %s" % (c["id"], p), cl.lex_replay(c))
         if c.get("_disagree"):
             rep.add_violation("correspondence", "case %s: %s" % (c["id"], c["_disagree"]), cl.lex_replay(c), failing_input=bool(probs))
-    cov = summarize(rep, len(cases), len(set(c["id"] for c in cases)),
-                    "files written by the real writer; each read through sources delivering 1 byte, halving sizes, random sizes, data together with EOF (seekable and not) and with an injected non-EOF error at every byte position 0..len (exhaustive per file) under three fragmentations; lexer compared with the model; oracle: fragmentation-independence, prefix + non-EOF error end, no crash",
+    # transient faults: the source returns the error once and then carries on (or reports end-of-file). The model's
+    # sources are sticky, so these runs are decided by the property's oracle on the implementation alone.
+    tcases = []
+    for fi, f in enumerate(files):
+        step = 1 if fi < (6 if tier == "quick" else 40) else 5
+        for pos in range(0, len(f["file"]) + 1, step):
+            for mode in ("once", "theneof"):
+                tcases.append({"id": "%s_%s%d" % (f["id"], mode, pos), "file": f["file"], "lopts": f["lo"],
+                               "src": {"seek": pos % 2, "frag": ("all", "rand3")[pos % 2], "fail": pos, "failmode": mode}, "base": f, "fail": pos, "mode": mode})
+    traw, tcr = cm.run_sharded(os.path.join(cm.BUILD, "impl"), "lex", [(c["id"], cl.lex_lines(c)) for c in tcases], wd, "c15t")
+    for cmd, rc, err in tcr:
+        rep.add_violation("executor-crash", "%s exited %s: %s" % (cmd, rc, err), [], failing_input=False)
+    ntrans = 0
+    for c in tcases:
+        g = cl.parse_lex_obs(traw.get(c["id"], []))
+        ref = go.get("%s_ref" % c["base"]["id"])
+        if ref is None or g["new"] is None:
+            continue
+        ntrans += 1
+        probs = []
+        # an error met while the attachment callback reads the data is delivered to the callback (the harness's
+        # callback prints it and carries on): the caller has been told there, so the read ends at that event
+        for i, e in enumerate(g["events"]):
+            if e.startswith("att ") and " err:injected" in e:
+                g = dict(g, events=g["events"][:i + 1], end="err:injected")
+                break
+        if g["panic"]:
+            probs.append("lexer crashed: %s" % g["panic"])
+        elif g["new"] == "ok":
+            if not events_prefix(g["events"], ref["events"]):
+                probs.append("records returned before a transient I/O error at byte %d (%s) are not a prefix of the true sequence" % (c["fail"], c["mode"]))
+            if g["end"] in ("err:eof", None):
+                probs.append("the source returned an I/O error at byte %d (%s) but the read ended with a clean end-of-file after %d of %d records"
+                             % (c["fail"], c["mode"], len(g["events"]), len(ref["events"])))
+        elif g["new"] not in ("err:badmagic", "err:injected"):
+            probs.append("NewLexer: %s" % g["new"])
+        for p in probs[:1]:
+            rep.add_violation("oracle", "case %s: %s" % (c["id"], p), cl.lex_replay(c))
+    # both message iterators over failing sources (sticky faults compared with the reader model; transient ones by the oracle)
+    rcases = []
+    for fi, f in enumerate(files[: (8 if tier == "quick" else 60)]):
+        if f["o"]["skipmagic"] or f["o"].get("custom"):
+            continue
+        for ropts, tagm in ((["index:0"], "scan"), ([], "idx")):
+            rcases.append({"id": "%s_%s_ref" % (f["id"], tagm), "file": f["file"], "ropts": ropts, "ops": [["messages"]], "base": f, "tagm": tagm})
+            for pos in range(0, len(f["file"]) + 1, 3 if tier == "quick" else 1):
+                for mode in ("", "once", "theneof"):
+                    src = {"seek": 1, "fail": pos, "frag": ("all", "rand4")[pos % 2]}
+                    if mode:
+                        src["failmode"] = mode
+                    rcases.append({"id": "%s_%s_%s%d" % (f["id"], tagm, mode or "fail", pos), "file": f["file"], "ropts": ropts, "ops": [["messages"]],
+                                   "src": src, "base": f, "tagm": tagm, "fail": pos, "mode": mode})
+    sticky = [c for c in rcases if not c.get("mode")]
+    go_r, model_r, nd2 = read_corr(rep, sticky, wd, "c15r", compare_slots=False)
+    trans = [c for c in rcases if c.get("mode")]
+    raw2, cr2 = cm.run_sharded(os.path.join(cm.BUILD, "impl"), "read", [(c["id"], cr.read_lines(c)) for c in trans], wd, "c15rt")
+    for cmd, rc, err in cr2:
+        rep.add_violation("executor-crash", "%s exited %s: %s" % (cmd, rc, err), [], failing_input=False)
+    for c in trans:
+        go_r[c["id"]] = cr.parse_read_obs(raw2.get(c["id"], []))
+    niter = 0
+    for c in rcases:
+        if "fail" not in c:
+            continue
+        g = go_r.get(c["id"])
+        ref = go_r.get("%s_%s_ref" % (c["base"]["id"], c["tagm"]))
+        probs = []
+        if not g or not ref or not ref["ops"] or not g["ops"]:
+            continue
+        niter += 1
+        o, ro = g["ops"][-1], ref["ops"][-1]
+        if g["panic"] or o["panic"]:
+            probs.append("reader crashed over a failing source: %s" % (g["panic"] or o["panic"]))
+        elif (o["head"] or "").startswith("messages ok") and (ro["head"] or "").startswith("messages ok") and ro["end"] == "err:eof":
+            full = ro["msgs"]
+            if o["end"] == "err:eof":
+                if o["msgs"] != full:
+                    probs.append("%s iterator over a source failing at byte %d (%s) ended with a clean end-of-file after %d of %d messages"
+                                 % (c["tagm"], c["fail"], c["mode"] or "sticky", len(o["msgs"]), len(full)))
+            elif o["msgs"] != full[:len(o["msgs"])]:
+                probs.append("%s iterator: messages returned before the I/O error at byte %d are not a prefix of the true sequence" % (c["tagm"], c["fail"]))
+        report_case(rep, c, probs[:1], cr.read_replay)
+    cov = summarize(rep, len(cases) + ntrans + niter, len(set(c["id"] for c in cases)),
+                    "files written by the real writer; each read through sources delivering 1 byte, halving sizes, random sizes, data together with EOF (seekable and not) and with an injected non-EOF error at every byte position 0..len (exhaustive per file) under three fragmentations; lexer compared with the model; transient faults (error once then data continues / then EOF) at every position; both message iterators (scan, and indexed over a seekable source) over sticky (model-compared) and transient faults; oracle: fragmentation-independence, prefix + non-EOF error end (a clean end only with the complete sequence), no crash",
                     [cl.lex_replay(c)[:4] for c in cases[1:3]],
-                    {"files": len(files), "fragmentation_runs": nfrag, "fault_positions": nfail, "disagreements": nd, "exhaustive": True})
+                    {"files": len(files), "fragmentation_runs": nfrag, "fault_positions": nfail, "transient_fault_runs": ntrans, "iterator_fault_runs": niter,
+                     "disagreements": nd + nd2, "exhaustive": True})
     return cov, ["decoders' propagation of a source error is recorded per instance by calling the codec directly"]
 
 
@@ -1236,7 +1325,7 @@ def check_c10(rep, tier, seed, wd, replay):
                 st["max_alloc"] = max(st["max_alloc"], a)
                 if c["limited"]:
                     st["max_alloc_limited"] = max(st["max_alloc_limited"], a)
-                    if a > (256 << 20):
+                    if a > (32 << 20):
                         probs.append("lexer with MaxRecordSize/MaxDecompressedChunkSize=64KiB allocated %d bytes for a %d-byte input" % (a, len(c["file"])))
                 elif a > (2 << 31) + (512 << 20):
                     probs.append("lexer allocated %d bytes for a %d-byte input (beyond two maximal buffers)" % (a, len(c["file"])))
@@ -1245,6 +1334,11 @@ def check_c10(rep, tier, seed, wd, replay):
             # damaged compressed payloads: decoder behaviour is an oracle with timing-dependent error reporting
             if (g["new"], m["new"]) == ("ok", "ok") and any(x in c["file"] for x in (b"zstd", b"lz4")):
                 st["codec_tolerated"] += 1
+                d = None
+            elif b"\xff\xff\xff\x7f" in c["file"] and g["end"] == "err:other" and m["end"] == "err:eof":
+                # a skip length just below 2^63: bytes.Reader.Seek overflows int64 and reports an error, the model's
+                # seekable source has no absolute position and moves past the end (both are error/EOF outcomes)
+                st["seek_overflow_tolerated"] = st.get("seek_overflow_tolerated", 0) + 1
                 d = None
         for p in probs:
             rep.add_violation("oracle", "case %s (%s): %s" % (c["id"], c["desc"], p), cl.lex_replay(c))
@@ -1264,6 +1358,9 @@ def check_c10(rep, tier, seed, wd, replay):
         d = cr.diff_read(g, m, compare_slots=False)
         if d and not probs and any(x in c["file"] for x in (b"zstd", b"lz4")) and g and m and not g["panic"] and not m["panic"]:
             st["codec_tolerated"] += 1
+            d = None
+        elif d and not probs and b"\xff\xff\xff\x7f" in c["file"] and "'err:other'" in d and "'err:eof'" in d:
+            st["seek_overflow_tolerated"] = st.get("seek_overflow_tolerated", 0) + 1      # see the lexer loop above
             d = None
         for p in probs:
             rep.add_violation("oracle", "case %s (%s): %s" % (c["id"], c["desc"], p), cr.read_replay(c))
@@ -2410,8 +2507,21 @@ def check_c16(rep, tier, seed, wd, replay):
     r = random.Random(seed * 1000 + 16)
     n = 300 if tier == "quick" else 3000
     # ---------------- Go -> Python
-    files, crashed = cl.written_files(seed * 1000 + 16, n, "c16g", wd, nmax=20, small=True, utf8_only=True,
-                                      force={"comp": "", "custom": False, "skipmagic": False})
+    g1 = gw.Gen(seed * 1000 + 16, utf8_only=True)
+    gcases = []
+    for i in range(n):
+        o = g1.wopts(comp="", custom=False, skipmagic=False)
+        o["chunksize"] = g1.r.choice([1, 7, 64, 64, 200, 1048576])
+        gcases.append({"id": "c16g%d" % i, "o": o, "calls": g1.calls(2, 20, legal=True)})
+    # the Go writer against its model on the same workloads (the files the Python readers get are the model's bytes)
+    go_w, _, _, _, nd0 = writer_corr(rep, gcases, wd, ["new", "calls", "writes"], set(), tag="c16w")
+    files = []
+    for c in gcases:
+        g = go_w.get(c["id"])
+        if g and g["new"] == "ok" and all(x == "ok" for x in g["calls"]):
+            c["file"] = b"".join(g["writes"])
+            c["g"] = g
+            files.append(c)
     gdir = os.path.join(wd, "go2py")
     os.makedirs(gdir)
     for f in files:
@@ -2445,11 +2555,14 @@ def check_c16(rep, tier, seed, wd, replay):
         watt = [[a[0], a[1], U(a[2]), U(a[3]), a[4].hex()] for a in want["attachments"]]
         wmd = [[U(m[0]), sorted([U(k), U(v)] for k, v in m[1])] for m in want["metadata"]]
         o = f["o"]
-        seek_ok = (not o["skipci"] and not o["skiprch"] and not o["skiprsh"] and o["chunked"] and not o["skipai"] and not o["skipmdi"]
-                   and not o["skipso"] and not o["skipmi"] and not o["skipstats"])
+        seek_ok = (not o["skipci"] and not o["skiprch"] and not o["skiprsh"] and o["chunked"] and not o["skipai"] and not o["skipmdi"])
         for rname in ("stream", "seek"):
             y = x.get(rname, {})
             if rname == "seek" and not seek_ok:
+                # the seeking reader's message/attachment/metadata iteration relies on indexes this file does not carry; its
+                # summary must still be found
+                if not o["skipstats"] and "error" not in y and "statistics" not in y:
+                    rep.add_violation("oracle", "case %s: Python seeking reader: get_summary() has no statistics although the Go writer wrote a statistics record" % f["id"], rp)
                 continue
             probs = []
             if "error" in y:
@@ -2463,17 +2576,21 @@ def check_c16(rep, tier, seed, wd, replay):
                     probs.append("Python %s reader: attachments differ" % rname)
                 if y.get("metadata") != wmd:
                     probs.append("Python %s reader: metadata differ" % rname)
+                # the summary: both Python readers find it through the footer alone, so whatever the Go writer put there must come back
+                if not o["skipstats"]:
+                    d = decode_written(f)
+                    if d:
+                        t = mcapspec.true_statistics(d)
+                        tv = [t["messages"], t["schemas"], t["channels"], t["attachments"], t["metadata"], t["chunks"], t["start"], t["end"], [list(x2) for x2 in t["counts"]]]
+                        if "statistics" not in y:
+                            probs.append("Python %s reader: get_summary() has no statistics although the Go writer wrote a statistics record" % rname)
+                        elif y["statistics"] != tv:
+                            probs.append("Python %s reader: statistics differ from the true aggregates" % rname)
                 if rname == "seek":
                     st["py_seek_compared"] += 1
                     ts = [m["message"][2] for m in y.get("log_order", [])]
                     if sorted(ts) != ts or sorted(js.dumps(m) for m in y.get("log_order", [])) != sorted(js.dumps(m) for m in wmsgs):
                         probs.append("Python seeking reader: log-time-ordered read is not a sorted permutation of the written messages")
-                    if not o["skipstats"] and "statistics" in y:
-                        d = decode_written(f)
-                        if d:
-                            t = mcapspec.true_statistics(d)
-                            if y["statistics"] != [t["messages"], t["schemas"], t["channels"], t["attachments"], t["metadata"], t["chunks"], t["start"], t["end"], [list(x2) for x2 in t["counts"]]]:
-                                probs.append("Python seeking reader: statistics differ from the true aggregates")
                 else:
                     if not probs:
                         st["py_stream_ok"] += 1
